@@ -4,6 +4,7 @@ package main
 
 import (
 	"go/ast"
+	"go/constant"
 	"go/token"
 	"go/types"
 	"sort"
@@ -264,6 +265,20 @@ func expandBoolLocals(fd *ast.FuncDecl, conds []pcond, depth int) []pcond {
 			}
 			return true
 		})
+		if n == 1 && len(defs) == 1 && defs[0] == nil && c.truth {
+			// the ok result of a helper of the module: what the helper's one successful return requires
+			if sc, ok := expandHelperOk(fd, id); ok {
+				for _, x := range sc {
+					x.loop = c.loop
+					if x.exit == nil {
+						x.exit = c.exit
+					}
+					out = append(out, x)
+				}
+				changed = true
+				continue
+			}
+		}
 		if n != 1 || len(defs) != 1 || defs[0] == nil {
 			out = append(out, c)
 			continue
@@ -1065,4 +1080,274 @@ func loopFilterSplit(info *types.Info, fd *ast.FuncDecl, rs *ast.RangeStmt, subs
 		filter = []string{}
 	}
 	return
+}
+
+// defsThrough returns the defining expressions of obj in cf; when obj is a parameter of the helper cf, what root (the
+// function the rule is anchored in) passes for it at its call sites of cf — the defining expressions of the argument
+// when it is an identifier of root, the argument itself otherwise. The second result tells in which function each
+// expression has to be read.
+func defsThrough(w *World, root, cf *FuncInfo, obj types.Object) ([]ast.Expr, []*FuncInfo) {
+	var out []ast.Expr
+	var where []*FuncInfo
+	for _, d := range defsIn(cf.Pkg.TypesInfo, cf.Decl, obj) {
+		out = append(out, d)
+		where = append(where, cf)
+	}
+	if len(out) > 0 || cf == root {
+		return out, where
+	}
+	pi := paramIndex(cf, obj)
+	if pi < 0 {
+		return nil, nil
+	}
+	info := root.Pkg.TypesInfo
+	ast.Inspect(root.Decl.Body, func(x ast.Node) bool {
+		call, ok := x.(*ast.CallExpr)
+		if !ok || calleeOf(info, call) != cf.Obj || pi >= len(call.Args) {
+			return true
+		}
+		arg := call.Args[pi]
+		if id := identOf(arg); id != nil {
+			ds := defsIn(info, root.Decl, objOf(info, id))
+			if len(ds) > 0 {
+				for _, d := range ds {
+					out = append(out, d)
+					where = append(where, root)
+				}
+				return true
+			}
+		}
+		out = append(out, arg)
+		where = append(where, root)
+		return true
+	})
+	return out, where
+}
+
+// ---------- conditions and values through helpers that return (values…, ok) ----------
+
+var (
+	theWorld   *World                                   // set by the loader: lets syntax-only helpers resolve callees
+	varAliases = map[types.Object]map[types.Object]bool{} // variables holding the same value across a helper boundary
+	paramArgs  = map[types.Object]ast.Expr{}             // helper parameter -> the (non-identifier) argument a caller passes
+)
+
+func linkVars(a, b types.Object) {
+	if a == nil || b == nil || a == b {
+		return
+	}
+	for _, p := range [][2]types.Object{{a, b}, {b, a}} {
+		if varAliases[p[0]] == nil {
+			varAliases[p[0]] = map[types.Object]bool{}
+		}
+		varAliases[p[0]][p[1]] = true
+	}
+}
+
+// aliasClass returns o and every variable linked to it (transitively).
+func aliasClass(o types.Object) []types.Object {
+	if o == nil {
+		return nil
+	}
+	seen := map[types.Object]bool{o: true}
+	out := []types.Object{o}
+	for i := 0; i < len(out); i++ {
+		for b := range varAliases[out[i]] {
+			if !seen[b] {
+				seen[b] = true
+				out = append(out, b)
+			}
+		}
+	}
+	sort.Slice(out, func(i, j int) bool { return out[i].Pos() < out[j].Pos() })
+	return out
+}
+
+// sameVar: a and b are the same variable, or hold the same value across a helper boundary (result of a helper bound
+// by its caller, identifier argument bound to a parameter).
+func sameVar(a, b types.Object) bool {
+	if a == nil || b == nil {
+		return false
+	}
+	if a == b {
+		return true
+	}
+	for _, x := range aliasClass(a) {
+		if x == b {
+			return true
+		}
+	}
+	return false
+}
+
+// funcContaining returns the declared function whose body contains n.
+func funcContaining(n ast.Node) *FuncInfo {
+	if theWorld == nil || n == nil {
+		return nil
+	}
+	for _, fi := range theWorld.Funcs {
+		if fi.Decl != nil && fi.Decl.Pos() <= n.Pos() && n.End() <= fi.Decl.End() && theWorld.Fset.File(fi.Decl.Pos()) == theWorld.Fset.File(n.Pos()) {
+			return fi
+		}
+	}
+	return nil
+}
+
+// successConds: the helper h returns, as its j-th result, a boolean "ok". When every return but one gives the constant
+// false there, the conditions of that one return (and, if its ok comes from another such helper, that helper's own)
+// are exactly what `ok` means to the caller. Aliases between the other results and the variables returned are
+// recorded. ok is false when h does not have that shape.
+func successConds(h *FuncInfo, j int, depth int) (conds []pcond, results []ast.Expr, ok bool) {
+	if h == nil || h.Decl.Body == nil || depth == 0 {
+		return nil, nil, false
+	}
+	info := h.Pkg.TypesInfo
+	var success []*ast.ReturnStmt
+	bad := false
+	ast.Inspect(h.Decl.Body, func(x ast.Node) bool {
+		if _, isLit := x.(*ast.FuncLit); isLit {
+			return false
+		}
+		ret, isRet := x.(*ast.ReturnStmt)
+		if !isRet {
+			return true
+		}
+		if len(ret.Results) <= j {
+			if len(ret.Results) == 1 { // return h2(args)
+				success = append(success, ret)
+				return true
+			}
+			bad = true
+			return true
+		}
+		if tv := info.Types[ret.Results[j]]; tv.Value != nil && tv.Value.Kind() == constant.Bool {
+			if constant.BoolVal(tv.Value) {
+				success = append(success, ret)
+			}
+			return true
+		}
+		success = append(success, ret)
+		return true
+	})
+	if bad || len(success) != 1 {
+		return nil, nil, false
+	}
+	ret := success[0]
+	conds = pathConds(h.Decl, ret)
+	if len(ret.Results) == 1 && j > 0 {
+		call, isCall := ast.Unparen(ret.Results[0]).(*ast.CallExpr)
+		if !isCall {
+			return nil, nil, false
+		}
+		h2 := theWorld.Funcs[calleeOf(info, call)]
+		c2, r2, ok2 := successConds(h2, j, depth-1)
+		if !ok2 {
+			return nil, nil, false
+		}
+		bindParams(h, h2, call)
+		return append(conds, c2...), r2, true
+	}
+	if tv := info.Types[ret.Results[j]]; tv.Value == nil {
+		// ok is a variable: it must itself be the ok of another helper (or of a comma-ok form, which pathConds keeps)
+		id := identOf(ret.Results[j])
+		if id == nil {
+			return nil, nil, false
+		}
+		conds = append(conds, expandBoolLocals(h.Decl, []pcond{{expr: id, truth: true}}, 3)...)
+	}
+	return conds, ret.Results, true
+}
+
+// bindParams links the parameters of callee to what caller passes at call: identifier arguments become aliases,
+// other arguments are remembered as the parameter's defining expression.
+func bindParams(caller, callee *FuncInfo, call *ast.CallExpr) {
+	if callee == nil || callee.Decl.Type.Params == nil {
+		return
+	}
+	k := 0
+	for _, f := range callee.Decl.Type.Params.List {
+		for _, nm := range f.Names {
+			if k < len(call.Args) {
+				p := callee.Pkg.TypesInfo.Defs[nm]
+				if id := identOf(call.Args[k]); id != nil {
+					linkVars(p, objOf(caller.Pkg.TypesInfo, id))
+				} else {
+					paramArgs[p] = call.Args[k]
+				}
+			}
+			k++
+		}
+	}
+}
+
+// throughParam: e is (an identifier of) a helper parameter for which a caller passes a non-identifier argument:
+// returns that argument, else e.
+func throughParam(info *types.Info, e ast.Expr) ast.Expr {
+	if id := identOf(e); id != nil {
+		if a, ok := paramArgs[objOf(info, id)]; ok {
+			return a
+		}
+	}
+	return e
+}
+
+// expandHelperOk: id is bound once, as the j-th left-hand side of `a, b, ok := h(args)` with h a function of the
+// module; returns the success conditions of h for that result (successConds), linking the other left-hand sides to
+// the variables h returns and h's parameters to the arguments.
+func expandHelperOk(fd *ast.FuncDecl, id *ast.Ident) ([]pcond, bool) {
+	if theWorld == nil {
+		return nil, false
+	}
+	caller := funcContaining(id)
+	if caller == nil || caller.Decl != fd {
+		return nil, false
+	}
+	info := caller.Pkg.TypesInfo
+	var as *ast.AssignStmt
+	j := -1
+	ast.Inspect(fd, func(x ast.Node) bool {
+		a, ok := x.(*ast.AssignStmt)
+		if !ok || len(a.Rhs) != 1 || len(a.Lhs) < 2 {
+			return true
+		}
+		for i, l := range a.Lhs {
+			if lid, ok := l.(*ast.Ident); ok && lid.Name == id.Name && sameDecl(lid, id) {
+				as, j = a, i
+			}
+		}
+		return true
+	})
+	if as == nil {
+		return nil, false
+	}
+	call, ok := ast.Unparen(as.Rhs[0]).(*ast.CallExpr)
+	if !ok {
+		return nil, false
+	}
+	h := theWorld.Funcs[calleeOf(info, call)]
+	if h == nil || h == caller {
+		return nil, false
+	}
+	if sig, ok := h.Obj.Type().(*types.Signature); !ok || sig.Results().Len() != len(as.Lhs) {
+		return nil, false
+	} else if b, ok := sig.Results().At(j).Type().Underlying().(*types.Basic); !ok || b.Kind() != types.Bool {
+		return nil, false
+	}
+	conds, results, ok := successConds(h, j, 3)
+	if !ok {
+		return nil, false
+	}
+	bindParams(caller, h, call)
+	hf := funcContaining(results[0])
+	for i, l := range as.Lhs {
+		if i == j || i >= len(results) {
+			continue
+		}
+		lid := identOf(l)
+		rid := identOf(results[i])
+		if lid != nil && rid != nil && hf != nil && lid.Name != "_" {
+			linkVars(objOf(info, lid), objOf(hf.Pkg.TypesInfo, rid))
+		}
+	}
+	return conds, true
 }
